@@ -2232,6 +2232,22 @@ class Interp:
                     return v.meta or typ
                 if v is None:
                     return B["NoneType"]
+                if isinstance(v, (bool, SBool)):
+                    return B["bool"]
+                if isinstance(v, (int, SInt)):
+                    return B["int"]
+                if isinstance(v, (str, SStr)):
+                    return B["str"]
+                if isinstance(v, float):
+                    return B["float"]
+                if isinstance(v, bytes):
+                    return B["bytes"]
+                if isinstance(v, PList):
+                    return B["tuple"] if v.frozen else B["list"]
+                if isinstance(v, PDict):
+                    return B["dict"]
+                if isinstance(v, PSet):
+                    return B["set"]
                 raise Unsupported(f"type({v!r})")
             raise Unsupported("3-arg type()")
         typ.native_ctor = type_ctor
@@ -2401,6 +2417,8 @@ class Interp:
                 return B["set"] in specs
             if isinstance(v, float):
                 return B["float"] in specs
+            if isinstance(v, bytes):
+                return B["bytes"] in specs
             return False
 
         @nf("issubclass")
